@@ -219,6 +219,79 @@ func c09Facts(w *bytes.Buffer) {
 		fail("getCellFormula: if transformed && !f.formulaChecked { ...setArrayFormulaCells()...; f.formulaChecked = true }")
 	}
 	fmt.Fprintf(w, "def flagSetBeforeExpansion : Bool := %v\n\n", assignIdx >= 0 && callIdx >= 0 && assignIdx < callIdx)
+	// --- write set and callee set of the evaluator (purity frame) ------------
+	w.WriteString("/-! purity frame: every assignment to a field / element (not a plain local) and every method called on the\nworkbook objects (receivers f, ws, x, fn.f) inside the evaluator's own functions -/\n")
+	frameFns := [][2]string{{"File", "CalcCellValue"}, {"File", "calcCellValue"}, {"File", "evalInfixExp"}, {"File", "evalInfixExpFunc"},
+		{"", "prepareEvalInfixExp"}, {"", "calculate"}, {"File", "parseOperatorPrefixToken"}, {"File", "parseToken"},
+		{"File", "parseReference"}, {"", "parseRef"}, {"cellRange", "prepareCellRange"}, {"File", "cellResolver"},
+		{"File", "rangeResolver"}, {"File", "getCellFormula"}, {"File", "setArrayFormulaCells"}, {"xlsxWorksheet", "setArrayFormula"},
+		{"File", "getCellStringFunc"}}
+	writes, calls := map[string]bool{}, map[string]bool{}
+	rootIdent := func(e ast.Expr) string {
+		for {
+			switch x := e.(type) {
+			case *ast.SelectorExpr:
+				e = x.X
+			case *ast.IndexExpr:
+				e = x.X
+			case *ast.StarExpr:
+				e = x.X
+			case *ast.ParenExpr:
+				e = x.X
+			case *ast.CallExpr:
+				e = x.Fun
+			case *ast.Ident:
+				return x.Name
+			default:
+				return ""
+			}
+		}
+	}
+	for _, fn := range frameFns {
+		fd := funcDecl(fn[0], fn[1])
+		if fd == nil {
+			fail("func %s (purity frame)", fn[1])
+			continue
+		}
+		ast.Inspect(fd.Body, func(x ast.Node) bool {
+			switch n := x.(type) {
+			case *ast.AssignStmt:
+				if n.Tok == token.DEFINE {
+					return true
+				}
+				for _, l := range n.Lhs {
+					switch l.(type) {
+					case *ast.SelectorExpr, *ast.IndexExpr, *ast.StarExpr:
+						writes[src(l)] = true
+					}
+				}
+			case *ast.IncDecStmt:
+				switch n.X.(type) {
+				case *ast.SelectorExpr, *ast.IndexExpr, *ast.StarExpr:
+					writes[src(n.X)] = true
+				}
+			case *ast.CallExpr:
+				if sel, ok := n.Fun.(*ast.SelectorExpr); ok {
+					switch rootIdent(sel.X) {
+					case "f", "ws", "x", "fn":
+						calls[src(sel.X)+"."+sel.Sel.Name] = true
+					}
+				}
+			}
+			return true
+		})
+	}
+	var wl, cl []string
+	for k := range writes {
+		wl = append(wl, strings.Join(strings.Fields(k), ""))
+	}
+	for k := range calls {
+		cl = append(cl, strings.Join(strings.Fields(k), ""))
+	}
+	sort.Strings(wl)
+	sort.Strings(cl)
+	c09StrList(w, "evalWrites", wl)
+	c09StrList(w, "evalCalls", cl)
 	// --- unguarded assertion sites ------------------------------------------
 	w.WriteString("/-! number of `Peek().(T)` / `Pop().(T)` type assertions per modelled function -/\n")
 	w.WriteString("def assertSites : List (String × Nat) := [")
